@@ -771,6 +771,18 @@ def R4(ctx: Ctx) -> RuleResult:
     phi = Sym('phi', 'HplExpression')
     outs = ev.run(fi, {'phi': phi})
     loops = [e for o in outs for e in o.effects if isinstance(e, Loop)]
+    gen_mode = False
+    if not loops and len(outs) == 1 and outs[0].kind == 'return':
+        v = outs[0].value
+        if isinstance(v, Call) and isinstance(v.func, Ext) and v.func.name in ('list', 'tuple') and len(v.args) == 1 and isinstance(v.args[0], Call) \
+                and isinstance(v.args[0].func, FuncRef) and v.args[0].args == (phi,):
+            # list(<generator>(phi)): the work list lives in a generator that yields the conjuncts
+            gfi = ev.callee(v.args[0].func)
+            if gfi is not None:
+                fi = gfi
+                outs = ev.run(gfi, {gfi.params()[0]: phi})
+                loops = [e for o in outs for e in o.effects if isinstance(e, Loop)]
+                gen_mode = True
     if not loops:
         raise AnalysisError('R4', '_split_and_expr: no work-list loop found')
     lp = loops[0]
@@ -800,7 +812,12 @@ def R4(ctx: Ctx) -> RuleResult:
         is_and = sh.kind.get(canon(expr)) == 'and' if expr is not None else False
         not_and = 'and' in sh.notkind.get(canon(expr), set()) if expr is not None else False
         pushes = [c for c in method_calls(list(effs), 'append') if call_recv(c) == lp.iter]
+        for c in method_calls(list(effs), 'extend'):
+            if call_recv(c) == lp.iter and c.args and isinstance(c.args[0], TupleT):
+                pushes.extend(Call(c.func, (x,)) for x in c.args[0].items)  # extend((a, b)) == append(a); append(b)
         emits = [c for c in method_calls(list(effs), 'append') if call_recv(c) != lp.iter]
+        if gen_mode:
+            emits = [Call(Ext('yield'), (e.args[0],)) for e in effs if isinstance(e, Op) and e.op == 'yield' and e.args]
         if not transformed:
             r.fail('_split_and_expr:transform', f'the conjunct is tested without the pre-split transformation: {expr!r}', fi.where)
             continue
